@@ -277,7 +277,7 @@ fn enumerate6(seed: u64, run: u64, tier: Tier, slices: u64) -> Plan {
         if let Some(n) = pke_idx.and_then(crate::fixtures::rsa4096_modulus) {
             use num_bigint_dig::BigUint;
             let nv = BigUint::from_bytes_be(&n);
-            let e = BigUint::from(65537u32);
+            let e = pke_idx.and_then(|i| crate::fixtures::rsa_exponent(Kind::PkePublic, i)).map(|e| BigUint::from_bytes_be(&e)).unwrap_or_else(|| BigUint::from(65537u32));
             let mut g = crate::prng::Rng::new(b.ev_seed());
             for _ in 0..3000 {
                 let mut r = g.bytes(512);
@@ -291,7 +291,7 @@ fn enumerate6(seed: u64, run: u64, tier: Tier, slices: u64) -> Plan {
             }
         }
     }
-    b.push(Step::Wrap { blob, node: 0, wk, key, with: with_w, params: params.clone(), rng });
+    b.push(Step::Wrap { blob, node: 0, wk, key, with: with_w.clone(), params: params.clone(), rng });
     let readers: Vec<usize> = if bk.sibling().is_some() { vec![0, 1] } else { vec![0] };
     let total = blob_len(f, wk, key_len(f, kk));
     let mut read = |b: &mut Builder, faults: Vec<BlobFault>, with: &SecretRef| {
@@ -314,6 +314,40 @@ fn enumerate6(seed: u64, run: u64, tier: Tier, slices: u64) -> Plan {
             continue;
         }
         read(&mut b, vec![BlobFault::Flip { byte: *byte, bit: *bit }], &with_u);
+    }
+    // every value of the bytes at which a field begins or ends (the tag of an encoded point among
+    // them: one encoding of the ephemeral key unseals, no other spelling of the same point does), and of
+    // one more byte per run
+    if !slow {
+        let tl = if f == 1 || f == 3 { 48 } else { 32 };
+        let extra = b.rng.usize_below(total);
+        let mut offs: Vec<usize> = match wk {
+            WrapKind::Pke => vec![0, tl - 1, tl, tl + 1, total - 1, extra],
+            WrapKind::Pie => vec![tl, extra],
+            WrapKind::Pw => vec![extra],
+        };
+        offs.sort();
+        offs.dedup();
+        for at in offs {
+            for val in 0..=255u8 {
+                read(&mut b, vec![BlobFault::SetByte { at, val }], &with_u);
+            }
+        }
+    }
+    // k3.seal: the ephemeral key is an encoded point. Further seals (each with its own ephemeral key,
+    // of either parity) whose point tag is rewritten to every other SEC1 tag: compressed with the other
+    // parity, compact (05: the root with the smaller y), hybrid, uncompressed, infinity
+    if f == 3 && wk == WrapKind::Pke {
+        for _ in 0..6 {
+            let b2 = b.blob_slot();
+            let rng2 = b.healthy_rng();
+            b.push(Step::Wrap { blob: b2, node: 0, wk, key, with: with_w.clone(), params: params.clone(), rng: rng2 });
+            for val in [0u8, 1, 2, 3, 4, 5, 6, 7, 8] {
+                for &r in &readers {
+                    b.push(Step::Unwrap { blob: b2, node: r, with: with_u.clone(), faults: vec![BlobFault::SetByte { at: 48, val }], as_kind: None });
+                }
+            }
+        }
     }
     // one byte removed anywhere inside the blob (the fields behind it shift)
     if slow {
